@@ -102,6 +102,11 @@ def regions(desc, geo=None):
         if f["window"] and any(fs[d]["window"] is None and d not in crossed and any(l["w"] != 1 for l in fs[d]["levels"])
                                for d in _trans_deps(fs, f["id"])):
             out.add("F26")
+    # Sequential on a weighted factor outside every crossing: the mismatch checker compares with the hidden desugared
+    # factor's levels and reports 'Sequential' for every sample
+    for c in D.all_constraints(desc["block"]):
+        if c["k"] == "Sequential" and fs[c["f"]]["window"] is None and c["f"] not in crossed and any(l["w"] != 1 for l in fs[c["f"]]["levels"]):
+            out.add("F30")
     # POST_PREAMBLE with a complex derived factor outside every crossing: the code starts the crossings after
     # that factor's start without extending the trial count
     def _post(b):
@@ -109,7 +114,13 @@ def regions(desc, geo=None):
             return True
         return any(_post(b[k]) for k in ("b", "outer", "inner") if k in b) or any(_post(x) for x in b.get("bs", []))
     if _post(desc["block"]) and any(_is_complex(fs, f["id"]) for f in desc["factors"]):
-        out.add("F22")
+        # F22 shows where the trial count or the crossing weights computed from each crossing's own preamble differ
+        # from those computed from the unified preamble, or where a complex factor outside every crossing moves the
+        # unified preamble.  Elsewhere in this region code and documentation agree, and nothing is masked.
+        outside = any(_is_complex(fs, f["id"]) and f["id"] not in crossed for f in desc["factors"])
+        par = (geo or {}).get("parallel")
+        if outside or par is None or par["n"] != geo["n"] or par["weights"] != geo["weights"]:
+            out.add("F22")
     # Exclude on a within-trial derived level whose inputs straddle a crossing: the trial count and the
     # Cross / RandomGen bookkeeping use different notions of "excluded combination"
     for c in D.all_constraints(desc["block"]):
@@ -153,12 +164,13 @@ def known_for(regs, prop, kind):
     the signatures it was recorded with, so a different failure in the same region is still reported."""
     table = [
         ("F10", ("exhaust:missing-all", "agree:sat-empty", "random-exception:AssertionError", "trialcount", "count",
-                 "mismatch:trial_count", "mismatch:crossing", "distinct")),
+                 "mismatch:trial_count", "mismatch:crossing", "distinct", "geometry")),
         ("F18", ("random-exception:KeyError",)),
-        ("F22", ("exhaust", "agree", "sound", "sat-exception:IndexError", "random-exception:IndexError", "count", "trialcount", "mismatch", "law")),
+        ("F22", ("exhaust", "agree", "sound", "sat-exception:IndexError", "random-exception:IndexError", "count", "trialcount", "mismatch", "law", "geometry")),
         ("F19", ("exhaust", "agree", "sound:derived", "sat-exception:RuntimeError", "count")),
         ("U1", ("agree", "exhaust", "sound:constraint", "mismatch")),
         ("F26", ("mismatch:KeyError",)),
+        ("F30", ("mismatch:Sequential",)),
     ]
     for r, kinds in table:
         if r in regs and any(kind == k or kind.startswith(k + ":") or kind.startswith(k + "-") or kind.startswith(k) for k in kinds):
@@ -577,7 +589,8 @@ def oracle_c09(ctx, budget_s):
 def oracle_c16(ctx, budget_s):
     ctx.rules.append("C16 oracle: block.trials_per_sample() equals the trial count Spec.geo computes from the "
                      "documented rules (crossing size with weights and exclusions, preamble, MinimumTrials, maximum "
-                     "over crossings, Repeat/Nest multiplication), and every sequence of every strategy has that length")
+                     "over crossings, Repeat/Nest multiplication), and every sequence of every strategy has that length; "
+                     "per crossing: factors, size, weight, sustain count and preamble of the block equal Spec.geo's")
     for case in gen_cases(ctx, budget_s):
         blk = case.built.block
         n = blk.trials_per_sample()
@@ -585,6 +598,25 @@ def oracle_c16(ctx, budget_s):
         if case.geo["error"] is None and n != case.geo["n"]:
             report(ctx, "trialcount", case, "block reports %d trials, the documented arithmetic gives %d" % (n, case.geo["n"]),
                    None, known_for(case.regs, "C16", "trialcount"))
+        if case.geo["error"] is None:
+            # the rest of the block's geometry, crossing by crossing, against the documented arithmetic
+            names = {f["id"]: f["name"] for f in case.desc["factors"]}
+            try:
+                py = {"crossings": [[str(f.name) for f in c] for c in blk.crossings],
+                      "sizes": [blk.crossing_size(c) for c in blk.crossings],
+                      "weights": list(blk.crossing_weights),
+                      "sustains": [blk.crossing_sustain_count(c) for c in blk.crossings],
+                      "preambles": [blk.preamble_size(c) for c in blk.crossings]}
+            except Exception as e:
+                py = {"error": type(e).__name__}
+            le = {"crossings": [[names[i] for i in c] for c in case.geo["crossings"]], "sizes": case.geo["sizes"],
+                  "weights": case.geo["weights"], "sustains": case.geo["sustains"], "preambles": case.geo["preambles"]}
+            ctx.count("C16.geometry")
+            bad = [k for k in le if py.get(k) != le[k]]
+            if bad:
+                report(ctx, "geometry", case, "block geometry differs from the documented arithmetic in %s: block %s, documented %s" % (
+                    bad, {k: py.get(k, py.get("error")) for k in bad}, {k: le[k] for k in bad}),
+                    None, known_for(case.regs, "C16", "geometry"))
         for strat in ("IterateSATGen", "RandomGen", "CMSGen"):
             if strat == "RandomGen" and not case.random_ok():
                 continue
@@ -758,7 +790,7 @@ def oracle_c17(ctx, budget_s):
                 mm = {"exception": type(e).__name__}
             ctx.count("C17.valid" if not v else "C17.invalid")
             if (mm == {}) != (not v):
-                sig = "mismatch:" + ("KeyError" if mm.get("exception") == "KeyError" else ("trial_count" if "trial_count" in mm else
+                sig = "mismatch:" + ("KeyError" if mm.get("exception") == "KeyError" else ("Sequential" if mm == {"constraints": ["Sequential"]} and not v else "trial_count" if "trial_count" in mm else
                                      ("crossing" if ("crossings" in mm or any(x.startswith("crossing") for x in v)) else "other")))
                 report(ctx, "mismatch", case, "mismatch checker says %s, reference says %s, for %s" % (
                     mm or "{}", v or "valid", O.fmt_seq(case.desc, s)), {"seq": s},
